@@ -19,6 +19,7 @@ import sys
 import threading
 import time
 from datetime import datetime
+from enum import Enum
 
 import numpy as np
 
@@ -146,6 +147,11 @@ class Tokens:
 
 
 # ------------------------------------------------------------------ the actor's dictionary
+def plain_key(k):
+    """reductions.py addresses its caches with str-valued Enum members."""
+    return k.value if isinstance(k, Enum) else k
+
+
 def actor_dict() -> dict:
     return KVS.getClient()._handle._obj._key_value_store
 
@@ -171,7 +177,7 @@ def proj_store(tok: Tokens, keys=None):
     d = actor_dict()
     out, undecided = {}, False
     for k, v in d.items():
-        out[k], u = proj_value(v, tok)
+        out[plain_key(k)], u = proj_value(v, tok)
         undecided |= u
     for k in keys or ():
         out.setdefault(k, ABSENT)
@@ -241,6 +247,7 @@ class Recorder:
         self.reports = []         # (client, [popped payload tokens], reported {event_type: [performers]})
         self.results = []         # (client, op, outcome, result object) of completed multi-transaction calls
         self.with_store = True
+        self.clear_objects = False
 
     # -- installation
     def install(self):
@@ -312,7 +319,7 @@ class Recorder:
                 if op == "logAndFlush":
                     popped = [r["res"]["v"]["a"] for r in call["recs"] if r["res"]["k"] == "value" and r["res"]["v"]["t"] == "atom"]
                     self.reports.append((who, popped, list(self.shim.lines.buf), outcome))
-                self.results.append((who, op, outcome, result))
+                self.results.append((who, op, outcome, result, getattr(st, "loc", {"d": "", "m": ""})))
 
     def _client(self):
         c = getattr(self.local, "client", None)
@@ -381,7 +388,7 @@ class Recorder:
         op = call["op"] if call else (self._op_from_stack() or name)
         if self.gate is not None and getattr(st, "ctx", None) is not None:
             self.gate.park(st.ctx)          # wait until the driver grants this client one transaction
-        key = t.key if t.key is not None else ""
+        key = plain_key(t.key) if t.key is not None else ""
         arg = self._arg(t, name)
         value, error = None, None
         try:
@@ -399,8 +406,8 @@ class Recorder:
         if call is not None:
             call["recs"].append(rec)
         self.records.append(rec)
-        if len(sched._OBJECTS) > 2000:
-            sched._OBJECTS.clear()
+        if self.clear_objects and len(sched._OBJECTS) > 2000:
+            sched._OBJECTS.clear()      # (never while a scenario holds references to pending job results)
         if error is not None:
             raise error
         return value
